@@ -264,6 +264,51 @@ def wrappers_sequence(w, lead):
     w.claim('nothing left unread', s.remaining_bits == 0 and s.ref_offset == len(s.refs))
 
 
+@obligation('C09.value_kinds', 'C09', cases=[{'kind': k} for k in ('uint', 'int', 'coins', 'address', 'cell')],
+            fuc=[H + 'with_uint_values', H + 'with_int_values', H + 'with_coins_values', H + 'with_address_values', H + 'serialize', H + 'parse'],
+            descr='the value serialisers a map can be given (with_uint_values / with_int_values / with_coins_values / '
+                  'with_address_values, default: cells): a two-key map with symbolic values parses back, with the matching loader, to the '
+                  'same key-value pairs')
+def value_kinds(w, kind):
+    from pytoniq_core.boc.hashmap.hashmap import HashMap
+    from pytoniq_core.boc.builder import Builder
+    from pytoniq_core.boc.address import Address
+    hm = HashMap(16)
+    if kind == 'uint':
+        vals = [w.int('v0', 0, (1 << 32) - 1), w.int('v1', 0, (1 << 32) - 1)]
+        hm.with_uint_values(32)
+        vd, eq = (lambda c: c.load_uint(32)), (lambda g, v: g == v)
+    elif kind == 'int':
+        vals = [w.int('v0', -(1 << 31), (1 << 31) - 1), w.int('v1', -(1 << 31), (1 << 31) - 1)]
+        hm.with_int_values(32)
+        vd, eq = (lambda c: c.load_int(32)), (lambda g, v: g == v)
+    elif kind == 'coins':
+        vals = [w.int('v0', 1 << 16, (1 << 24) - 1), w.int('v1', 0, 0)]
+        hm.with_coins_values()
+        vd, eq = (lambda c: c.load_coins()), (lambda g, v: g == v)
+    elif kind == 'address':
+        hp = [w.bytes('h0', 32), w.bytes('h1', 32)]
+        vals = [Address((0, hp[0])), Address((-1, hp[1]))]
+        hm.with_address_values()
+        vd = lambda c: c.load_address()
+        eq = lambda g, v: w.And(g.wc == v.wc, g.hash_part == v.hash_part)
+    else:
+        vals = [Builder().store_uint(w.int('v0', 0, 255), 8).end_cell(), Builder().store_uint(w.int('v1', 0, 255), 8).end_cell()]
+        vd = lambda c: c.load_uint(8)
+        eq = lambda g, v: g == v.begin_parse().load_uint(8)
+    hm.set_int_key(5, vals[0]).set_int_key(40000, vals[1])
+    k, cell = call(hm.serialize)
+    w.claim(f'serialize does not raise ({cell if k != "ok" else ""})', k == 'ok')
+    if k != 'ok':
+        return
+    k2, got = call(HashMap.parse, cell.begin_parse(), 16, None, vd)
+    w.claim(f'parse does not raise ({got if k2 != "ok" else ""})', k2 == 'ok')
+    if k2 == 'ok':
+        w.claim('keys ascending and complete', list(got.keys()) == [5, 40000])
+        if list(got.keys()) == [5, 40000]:
+            w.claim('values', w.And(eq(got[5], vals[0]), eq(got[40000], vals[1])))
+
+
 # ---- bounded stand-ins ------------------------------------------------------------------------------------------------
 
 def _roundtrip(w, width, order, vals, label):
